@@ -487,6 +487,74 @@ def check_copylen_guard(rep, mod):
         raise AnalysisBroken('L-COPYLEN-GUARD: no copy whose length is a plain load of avail_in / avail_out found')
 
 
+def check_chunk_clean(rep, mod):
+    """A resumable reader may store provisional values into the caller's header structure when it parks itself for more input (a running crc while the flags byte has not
+    arrived).  Whatever it stores on such an exit has to be stored again - finally - on every path that completes the header, or the fields the caller receives depend on
+    where the calls cut the input."""
+    R = rep.rule('R-HDR-CHUNK-CLEAN', 'isal_read_gzip_header / isal_read_zlib_header: every header field that is stored in a block from which the completion of the header (wrapper_flag = 1) cannot be reached - a '
+                 'store made only when the reader gives up for more input - is stored on every path from the entry through the ISAL_BLOCK_NEW_HDR case to the completion as well (forward must-written dataflow): no provisional value survives into '
+                 'the result', floor=2, unit='readers')
+    wo = field_offsets('struct inflate_state', ['wrapper_flag'])['wrapper_flag']
+    KNEW = mirror.c_values('default', ['igzip_lib.h'], [('NEW', 'ISAL_BLOCK_NEW_HDR')], 'c19_newhdr2')[0]['NEW']
+    for rn, st, fl in (('isal_read_gzip_header', 'struct isal_gzip_header', GZ_FIELDS), ('isal_read_zlib_header', 'struct isal_zlib_header', Z_FIELDS)):
+        r = mod.funcs.get(rn)
+        if r is None:
+            raise AnalysisBroken(rn + ' not found')
+        R.instance()
+        names = {o: n for n, o in field_offsets(st, fl).items()}
+        P = irrules.prov(mod, r)
+
+        def hoff(ptr):
+            at = P.atoms(ptr)
+            if len(at) == 1:
+                a = next(iter(at))
+                if a[0] == 'param' and a[1] == 1:
+                    return a[2]
+            return None
+        done = [i for i in r.all_insns() if i.op == 'store' and i.ops[0] == '1' and P.atoms(i.ops[1]) == {('param', 0, wo)}]
+        if len(done) != 1:
+            raise AnalysisBroken('%s: expected one store wrapper_flag = 1, found %d' % (rn, len(done)))
+        dblk = done[0].block
+        can_reach = {b for b in r.order if dblk in r.reachable_avoiding(b, set())}
+        park = {}
+        for i in r.all_insns():
+            if i.op == 'store' and hoff(i.ops[1]) is not None and i.block not in can_reach:
+                park.setdefault(hoff(i.ops[1]), i)
+        IN = {b: None for b in r.order}
+        IN[r.entry()] = frozenset()
+        ch = True
+        while ch:
+            ch = False
+            for b in r.order:
+                if IN[b] is None:
+                    continue
+                cur = set(IN[b])
+                for i in r.blocks[b].insns:
+                    if i is done[0]:
+                        break
+                    if i.op == 'store' and hoff(i.ops[1]) is not None:
+                        cur.add(hoff(i.ops[1]))
+                if b == dblk:
+                    IN['#done'] = frozenset(cur) if IN.get('#done') is None else IN['#done'] & frozenset(cur)
+                succs = r.blocks[b].succs
+                t = r.blocks[b].insns[-1]
+                if t.op == 'switch':
+                    # a call that starts the header (or continues its first field) goes through the ISAL_BLOCK_NEW_HDR case; the other cases resume behind fields whose values
+                    # the earlier call stored for good
+                    cs = t.extra['cases'].items() if isinstance(t.extra['cases'], dict) else t.extra['cases']
+                    succs = [tg for k, tg in cs if int(k) == KNEW]
+                for s_ in succs:
+                    nw = frozenset(cur) if IN[s_] is None else IN[s_] & frozenset(cur)
+                    if nw != IN[s_]:
+                        IN[s_] = nw
+                        ch = True
+        final = IN.get('#done') or frozenset()
+        bad = sorted(o for o in park if o not in final)
+        R.check(not bad, mod.where(r, park[bad[0]]) if bad else mod.where(r, None), '%s stores header field(s) %s when it returns for more input, but not on every path that completes the header: the value the caller '
+                'finds there depends on whether a call boundary fell inside the header (one piece: the caller\'s initial value; several pieces: the provisional one)' % (rn, [names.get(o, o) for o in bad]),
+                key='R-HDR-CHUNK-CLEAN|%s' % rn, sample='%s: %d provisional store(s), all finalised' % (rn, len(park)))
+
+
 def check_magic(rep, mod):
     """RFC 1952: a member starts with ID1 = 0x1f, ID2 = 0x8b, CM = 8.  Each of the three comparisons must by itself send a mismatch to the documented
     error return; a mismatch edge from which the parser can still be reached (e.g. `&&` instead of `||`) accepts headers with one wrong byte."""
@@ -714,6 +782,7 @@ def main(tier):
     rep.attempt(check_null_skip, rep, mod)
     rep.attempt(check_count_reset, rep, mod)
     rep.attempt(check_copylen_guard, rep, mod)
+    rep.attempt(check_chunk_clean, rep, mod)
     import c17
     rep.attempt(c17.check_mask_range, rep, 'default')      # the CMF byte written by _zlib_header_in_buffer: CINFO for every hist_bits
     import probepure
